@@ -23,7 +23,8 @@ def scenarios(quick):
                             base = [start(i + 1, at, asyn=(i == 2)) for i, at in enumerate(starts)]
                             out.append(scenario(st, fns, base))
                             for ct in ((1, 3) if quick else (0, 1, 2, 3, 4)):
-                                out.append(scenario(st, fns, base + [env("CtxCancel", ct, 2)]))
+                                if ct >= starts[1]:          # (only an execution that has been started can be cancelled)
+                                    out.append(scenario(st, fns, base + [env("CtxCancel", ct, 2)]))
                             if w > 0:
                                 # the caller's deadline falls inside the wait for a permit, or on the instant the wait ends
                                 for x in (2, 3):
